@@ -242,7 +242,9 @@ package atree
 //@ func NewArrayFromBatchData(storage, address, typeInfo, fn) (a, err)  serves C05 C06 C17
 //@   requires storage != nil && fn != nil
 //@   assume (forall st Storable :: bs(st) >= 1) because "A4: a storable occupies at least one byte"
-//@   exit err == nil && is(root, *ArrayDataSlab) ==> wfADS(as(root, *ArrayDataSlab)) && as(root, *ArrayDataSlab).extraData != nil && !as(root, *ArrayDataSlab).inlined
+//@   exit err == nil && is(root, *ArrayDataSlab) ==> as(root, *ArrayDataSlab).extraData != nil && !as(root, *ArrayDataSlab).inlined
+//@   exit err == nil && is(root, *ArrayDataSlab) ==> as(root, *ArrayDataSlab).header.size == 5 + sum(bs, as(root, *ArrayDataSlab).elements, len(as(root, *ArrayDataSlab).elements)) &&
+//@        as(root, *ArrayDataSlab).header.count == len(as(root, *ArrayDataSlab).elements)
 //@   ensures err == nil ==> a != nil && a.Storage == storage && a.root != nil
 //@   ensures err != nil ==> a == nil
 //@   modifies heap, ghost.sto, ghost.stored, ghost.touched, alloc
@@ -254,7 +256,9 @@ package atree
 //@             as(slabs[k], *ArrayDataSlab).header.size <= targetThreshold + maxInlineArrayElementSize && as(slabs[k], *ArrayDataSlab).header.size >= targetThreshold)
 //@   loop 1: invariant (forall j, k :: 0 <= j && j < k && k < len(slabs) ==> slabs[j] != slabs[k])
 
-//@   loop 2: invariant len(slabs) >= 1 && (forall k :: 0 <= k && k < len(slabs) ==> slabs[k] != nil && !allocatedBefore(slabs[k]) && isArr(slabs[k]))
+//@   loop 2: invariant len(slabs) >= 1
+//@   loop 2: invariant (forall k :: 0 <= k && k < len(slabs) ==> slabs[k] != nil && isArr(slabs[k]))
+//@   loop 2: invariant (forall k :: 0 <= k && k < len(slabs) ==> !allocatedBefore(slabs[k]))
 //@   loop 2: invariant (forall j, k :: 0 <= j && j < k && k < len(slabs) ==> slabs[j] != slabs[k])
 //@   loop 2: invariant (forall k :: 0 <= k && k < len(slabs) ==> is(slabs[k], *ArrayDataSlab)) || (forall k :: 0 <= k && k < len(slabs) ==> is(slabs[k], *ArrayMetaDataSlab))
 //@   loop 2: invariant (forall k :: 0 <= k && k < len(slabs) && is(slabs[k], *ArrayDataSlab) ==> plainADS(as(slabs[k], *ArrayDataSlab)) &&
